@@ -15,6 +15,12 @@ import (
 func init() { Register("C02", checkC02) }
 
 var c02Pins = []pin{
+	{"resolveOneTypeVarD", "nf", `seq[if((p1 > 1000), seq[PanicNow("Too deep type resolution, maybe cyclic type, give up")])] match(rsLookupEI(p0, p2.Name).resType; FType_FTypeVar -> if((payload(FType_FTypeVar).Name eq p2.Name), rsLookupEI(p0, p2.Name).resType, transTVFType(resolveOneTypeVarD(p0, (p1 + 1), _), rsLookupEI(p0, p2.Name).resType)); _ -> transTVFType(resolveOneTypeVarD(p0, (p1 + 1), _), rsLookupEI(p0, p2.Name).resType))`,
+		"a variable resolves to what its equivalence class currently says, re-resolved through the current state at every use (no cache of earlier answers); depth-guarded"},
+	{"resolveOneTypeVar", "nf", `resolveOneTypeVarD(p0, 0, p1)`,
+		"resolution starts at depth 0"},
+	{"resolveType", "nf", `transTVFType(resolveOneTypeVar(p0, _), p1)`,
+		"a type is resolved by substituting every variable through the resolver"},
 	{"updateFunCallFunType", "nf", `match(p2; VarRef_VRVar -> match(payload(VarRef_VRVar).Ftype; FType_FFunc -> p2; FType_FTypeVar -> seq[updateResolver(p1, [UniRel{SrcV: payload(FType_FTypeVar).Name, Dest: newFFunc(slice.PushLast(New_FType_FTypeVar(p0()), slice.Map(ExprToType, p3)))}])] New_VarRef_VRVar(Var{Name: payload(VarRef_VRVar).Name, Ftype: newFFunc(slice.PushLast(New_FType_FTypeVar(p0()), slice.Map(ExprToType, p3)))}); _ -> seq[PanicNow("Unknown funcall first arg type.")] p2); VarRef_VRSVar -> p2; _ -> never)`,
 		"an applied variable whose type is still a variable gets the function type [types of the arguments in order; a fresh result variable], recorded as a relation and in the returned reference; a variable already of function type is left alone"},
 	{"collectTVarFTypeWithSet", "nf", `match(p1; FType_FTypeVar -> [payload(FType_FTypeVar).Name]; FType_FSlice -> collectTVarFTypeWithSet(p0, payload(FType_FSlice).ElemType); FType_FTuple -> slice.Collect(collectTVarFTypeWithSet(p0, _), payload(FType_FTuple).ElemTypes); FType_FFieldAccess -> collectTVarFTypeWithSet(p0, payload(FType_FFieldAccess).RecType); FType_FRecord -> if(SSetHasKey(p0, rtToKey(payload(FType_FRecord))), slice.New(), seq[SSetPut(p0, rtToKey(payload(FType_FRecord)))] slice.Append(slice.Collect(collectTVarFTypeWithSet(p0, _), slice.Map(\x0. x0.Ftype, lookupRecInfo(payload(FType_FRecord)).Fields)), slice.Collect(collectTVarFTypeWithSet(p0, _), payload(FType_FRecord).Targs))); FType_FUnion -> if(SSetHasKey(p0, uniToKey(payload(FType_FUnion))), slice.New(), seq[SSetPut(p0, uniToKey(payload(FType_FUnion)))] slice.Append(slice.Collect(collectTVarFTypeWithSet(p0, _), slice.Map(\x1. x1.Ftype, utCases(payload(FType_FUnion)))), slice.Collect(collectTVarFTypeWithSet(p0, _), payload(FType_FUnion).Targs))); FType_FFunc -> slice.Collect(collectTVarFTypeWithSet(p0, _), payload(FType_FFunc).Targets); FType_FParamd -> slice.Collect(collectTVarFTypeWithSet(p0, _), payload(FType_FParamd).Targs); _ -> slice.New())`,
